@@ -389,14 +389,13 @@ def sumproduct(*args):
     if len(sizes) != 1:
         return VALUE_ERROR
 
-    # put the values into numpy vectors
-    values = np.array(tuple(tuple(
+    # non-numbers count as zero
+    values = tuple(tuple(
         x if isinstance(x, (float, int)) and not isinstance(x, bool) else 0
-        for x in flatten(arg)) for arg in args))
+        for x in flatten(arg)) for arg in args)
 
-    # return the sum product
-    result = np.sum(np.prod(values, axis=0))
-    return result.item() if isinstance(result, np.generic) else result
+    # return the sum product (python numbers: ints do not overflow)
+    return sum(prod(column) for column in zip(*values))
 
 
 @excel_math_func
